@@ -210,7 +210,9 @@ def check_projection(rep, prog):
         args = [ast.unparse(a) for a in src.args] if is_comb else []
         body = [ast.unparse(s) for s in lp.body]
         tgt = ast.unparse(lp.target)
-        ok = is_comb and args == ['partition', 'k // 2'] and body == ['result[sum(%s)] += 1' % tgt]
+        # the accumulator is whatever array is returned normalised by its own sum
+        acc_names = {ast.unparse(x.left) for x in [r_.value for r_ in r] if isinstance(x, ast.BinOp) and isinstance(x.op, ast.Div)}
+        ok = is_comb and args == ['partition', 'k // 2'] and len(body) == 1 and any(body == ['%s[sum(%s)] += 1' % (a_, tgt)] for a_ in acc_names)
         det = 'iterates %s%s; body %s' % ('(' + '>'.join(chain) + ') ' if chain else '', ast.unparse(src), body)
     if not loops:
         # a vectorised count: `result[index array] += 1` applies the increment once per DISTINCT index (numpy buffers the update of a
@@ -224,27 +226,97 @@ def check_projection(rep, prog):
                     det = '`%s` increments once per distinct index: combinations with equal allele sums lose their multiplicity (numpy.add.at or bincount would keep it)' % ast.unparse(n)
     rep.ob('R-MULT', 'projection_inbreeding combinations', ok, det, m.rel, fn.lineno,
            what='each choice of k//2 individuals is counted once, with multiplicity (no set / unique), at the index of its allele sum')
-    init = [s for s in own_nodes(fn) if isinstance(s, ast.Assign) and ast.unparse(s.targets[0]) == 'result']
+    acc_names2 = {ast.unparse(x.left) for x in [r_.value for r_ in r] if isinstance(x, ast.BinOp) and isinstance(x.op, ast.Div)} or {'result'}
+    init = [s for s in own_nodes(fn) if isinstance(s, ast.Assign) and ast.unparse(s.targets[0]) in acc_names2]
     rep.ob('R-IDX', 'projection_inbreeding support', len(init) == 1 and ast.unparse(init[0].value) in ('numpy.zeros_like(range(k + 1))', 'numpy.zeros(k + 1)', 'numpy.zeros(k + 1, dtype=int)'),
            ast.unparse(init[0].value) if init else '?', m.rel, fn.lineno, what='k+1 outcomes 0..k')
     # projection_matrix
     fn = prog.func(LP, 'projection_matrix')
     rep.saw_function(m.rel + ':' + fn.name)
-    t = ast.unparse(fn)
     cpp = positional_params(prog.func(NUM, '_cached_projection'))
-    ok0 = has(t, 'projection_matrix[allele_freq, :] = dadi.Numerics._cached_projection(n_subsampling, n_sequenced, allele_freq)') and cpp[:3] == ['proj_to', 'proj_from', 'hits']
-    rep.ob('R-ARGS', 'projection_matrix F=0 arm', ok0, '_cached_projection(n_subsampling, n_sequenced, allele_freq) against parameters %s' % cpp[:3], m.rel, fn.lineno,
-           what='hypergeometric projection from the sequenced to the subsampled size for each allele count')
-    okf = has(t, "(partitions, partition_probabilities) = partitions_and_probabilities(n_sequenced, 'allele_frequency', F, allele_freq)") and \
-        has(t, 'proj = numpy.zeros_like(range(n_subsampling + 1), dtype=float)') and \
-        has(t, 'for partition, part_prob in zip(partitions, partition_probabilities): proj += projection_inbreeding(partition, n_subsampling) * part_prob') and \
-        has(t, 'projection_matrix[allele_freq, :] = proj')
     pp = func_params(prog.func(LP, 'partitions_and_probabilities'))
-    okf = okf and pp == ['n_sequenced', 'partition_type', 'Fx', 'allele_frequency'] and func_params(prog.func(LP, 'projection_inbreeding')) == ['partition', 'k']
-    rep.ob('R-ALG', 'projection_matrix inbreeding arm', okf, 'row = sum over partitions of P(partition) * projection_inbreeding(partition, n_subsampling)', m.rel, fn.lineno,
+    # rows of the matrix without and with inbreeding: abstract execution (F concrete 0, or a symbol known to be non-zero; one symbolic
+    # iteration of the loop over allele counts and of the loop over partitions)
+    from sa import miniexec as mx
+    from sa import alpha as _alpha
+    known_ = _alpha.load_table().get('__params__', {}).get(m.rel)
+    known_ = set(known_) if known_ is not None else None
+    bad0, badf, badr = [], [], []
+    for inbred in (False, True):
+        def hook(nm, args, kwargs):
+            return NotImplemented
+        it = mx.Interp(prog, m, known_functions=known_, symbolic_loops=True)
+        Fv = mx.Sym('F', truth=True) if inbred else 0
+        try:
+            paths = it.run(fn, {'n_sequenced': mx.Sym('n_sequenced'), 'n_subsampling': mx.Sym('n_subsampling'), 'F': Fv})
+        except mx.Undecidable as e:
+            raise AnalysisError('projection_matrix is not recognised: %s' % e)
+        # `F != 0` on a symbol forks: keep the paths that took the arm of this world (decided by the calls they make)
+        for outcome, events, dec in paths:
+            pcalls = [e for e in events if e[0] == 'call' and e[1] == 'partitions_and_probabilities']
+            ccalls = [e for e in events if e[0] == 'call' and e[1].endswith('_cached_projection')]
+            if inbred and not pcalls:
+                continue           # the F == 0 outcome of the undecided test: covered by the other world
+            if outcome[0] != 'return':
+                badr.append('raises %s' % outcome[1])
+                continue
+            mat = outcome[1]
+            mc = mx.call_of(mat, 'empty') or mx.call_of(mat, 'zeros')
+            shp = mc[0][0] if mc and mc[0] else (mc[1].get('shape') if mc else None)
+            if not (isinstance(shp, (tuple, list)) and [mx.show(x) for x in shp] == ['(n_sequenced + 1)', '(n_subsampling + 1)']):
+                badr.append('result %s' % mx.show(mat)[:60])
+            loops_ = [e for e in events if e[0] == 'loop']
+            if not loops_ or loops_[0][1].replace(' ', '') not in ('range((n_sequenced+1))', 'range(0,(n_sequenced+1))'):
+                badr.append('rows iterated over %s' % [e[1] for e in loops_][:1])
+                continue
+            af = loops_[0][2]
+            rows = [e for e in events if e[0] in ('setitem', 'augitem') and (e[4] if e[0] == 'setitem' else e[1]) is mat]
+            def row_key_ok(k):
+                k = k if isinstance(k, tuple) else (k,)
+                return mx.show(k[0]) == af and all(mx.is_full_slice(x) for x in k[1:]) and len(k) <= 2
+            if not inbred:
+                ok_ = len(rows) == 1 and rows[0][0] == 'setitem' and row_key_ok(rows[0][2]) and mx.call_of(rows[0][3], '_cached_projection') is not None and \
+                    [mx.show(a) for a in mx.call_of(rows[0][3], '_cached_projection')[0]] == ['n_subsampling', 'n_sequenced', af] and not pcalls
+                if not ok_:
+                    bad0.append('row %s = %s' % ([mx.show(r_[2]) for r_ in rows], [mx.show(r_[3])[:60] for r_ in rows]))
+                continue
+            # inbreeding: row = sum over partitions of projection_inbreeding(partition, n_subsampling) * P(partition)
+            okp_ = len(pcalls) == 1 and [mx.show(a) for a in pcalls[0][2]] + ['%s=%s' % (k_, mx.show(v_)) for k_, v_ in pcalls[0][3].items()] == ['n_sequenced', "'allele_frequency'", 'F', af]
+            zl = [e for e in events if e[0] == 'loop' and e[1].startswith('zip(')]
+            pair_ok = False
+            term_ok = False
+            if len(zl) == 1:
+                pr = mx.show(pcalls[0][2][0]) if False else None
+                # zip(partitions, probabilities) of the one call, in that order
+                call_txt = mx.show(mx.Sym('x')) and None
+                pair_ok = zl[0][1].replace(' ', '').startswith('zip(partitions_and_probabilities(') and '[0]' in zl[0][1] and '[1]' in zl[0][1] and zl[0][1].index('[0]') < zl[0][1].index('[1]')
+                tv = zl[0][2].strip('()').split(', ')
+                incs = [e for e in events if e[0] == 'augitem' and e[3] == 'Add']
+                accs = []
+                for e in incs:
+                    accs.append((e[1], e[2], e[4]))
+                # accumulation into a separate vector that is stored into the row afterwards
+                stores = [r_ for r_ in rows if r_[0] == 'setitem']
+                if len(tv) == 2:
+                    want_term = sorted(['projection_inbreeding(%s, n_subsampling)' % tv[0], tv[1]])
+                    def is_term(x):
+                        return sorted(mx.show(f_) for f_ in mx.factors(x, '*')) == want_term
+                    if len(accs) == 1 and accs[0][0] is mat and row_key_ok(accs[0][1]) and is_term(accs[0][2]) and mx.call_of(mat, 'zeros') is not None:
+                        term_ok = True
+                    elif len(stores) == 1 and row_key_ok(stores[0][2]):
+                        parts = mx.factors(stores[0][3], '+')
+                        zeros_ = [x for x in parts if mx.call_of(x, 'zeros_like') is not None or mx.call_of(x, 'zeros') is not None]
+                        rest = [x for x in parts if x not in zeros_]
+                        term_ok = len(zeros_) == 1 and len(rest) == 1 and is_term(rest[0])
+            if not (okp_ and pair_ok and term_ok) or ccalls:
+                badf.append('partitions call %s; pairing %s; row term %s' % (okp_, pair_ok, term_ok))
+    ok0 = not bad0 and cpp[:3] == ['proj_to', 'proj_from', 'hits']
+    rep.ob('R-ARGS', 'projection_matrix F=0 arm', ok0, '; '.join(bad0[:2]) or '_cached_projection(n_subsampling, n_sequenced, allele_freq) against parameters %s' % cpp[:3], m.rel, fn.lineno,
+           what='hypergeometric projection from the sequenced to the subsampled size for each allele count')
+    okf = not badf and pp == ['n_sequenced', 'partition_type', 'Fx', 'allele_frequency'] and func_params(prog.func(LP, 'projection_inbreeding')) == ['partition', 'k']
+    rep.ob('R-ALG', 'projection_matrix inbreeding arm', okf, '; '.join(badf[:2]) or 'row = sum over partitions of P(partition) * projection_inbreeding(partition, n_subsampling)', m.rel, fn.lineno,
            what='rows are mixtures of normalised vectors with normalised weights')
-    okr = has(t, 'for allele_freq in range(n_sequenced + 1):') and has(t, 'projection_matrix = numpy.empty((n_sequenced + 1, n_subsampling + 1))') and has(t, 'if F != 0:')
-    rep.ob('R-EXH', 'projection_matrix rows', okr, 'one row per allele count 0..n_sequenced, n_subsampling+1 columns, both arms assign the row', m.rel, fn.lineno, what='every row of the matrix is assigned')
+    rep.ob('R-EXH', 'projection_matrix rows', not badr, '; '.join(badr[:2]) or 'one row per allele count 0..n_sequenced, n_subsampling+1 columns, both arms assign the row', m.rel, fn.lineno, what='every row of the matrix is assigned')
 
 
 def check_calling_error(rep, prog):
